@@ -317,10 +317,15 @@ def run_client_case(case, forced, mode):
     import pymemcache.client.base as base
     _, programs, max_size = case
     sch = S.Sched(len(programs), forced)
-    net = FakeNet()
+    from vk import fakenet as _fk
+    # replies longer than 16 bytes (the get replies) arrive in two pieces, cut inside the value: a scheduling point lies
+    # between the pieces, so another thread's whole read can run while this one is half-way through its value
+    net = FakeNet(_fk.CutSet([16]))
     net.trace_enabled = True
     srv = net.add_server("mc1", 11211, RefServer())
     srv.store[b"h1"] = Item(b"v1", 0, 0, srv._next_cas())
+    for t_ in range(4):
+        srv.store[b"g%d" % t_] = Item(b"value-of-thread-%d" % t_, 0, 0, srv._next_cas())      # every thread reads its own item
     active = {}
     viol_extra = []
     close_marks = []
@@ -363,7 +368,7 @@ def run_client_case(case, forced, mode):
                     if op == "set":
                         r = pc.set("k%d" % idx, b"v%d" % idx)
                     elif op == "get":
-                        r = pc.get("h1")
+                        r = pc.get("g%d" % idx)
                     elif op == "fail_recv":
                         net.faults[((idx, j), "recv")] = "reset"
                         r = pc.get("h1")
@@ -418,8 +423,8 @@ def run_client_case(case, forced, mode):
         # expected results of undisturbed operations
         for idx, op, kind, r in outcomes:
             if kind == "ret" and not has_close:
-                if op == "get" and r != b"v1":
-                    viol.append(("wrong-result-under-concurrency", "get returned %r" % (r,)))
+                if op == "get" and r != b"value-of-thread-%d" % idx:
+                    viol.append(("wrong-result-under-concurrency", "thread %d's get returned %r" % (idx, r)))
                 if op == "set" and r is not True:
                     viol.append(("wrong-result-under-concurrency", "set returned %r" % (r,)))
         for kind, detail in net.alarms:
@@ -508,10 +513,13 @@ def stress_section(res, seconds, seed, max_size):
     import pymemcache.client.base as base
     old_si = sys.getswitchinterval()
     sys.setswitchinterval(1e-6)
-    net = FakeNet()
+    from vk import fakenet as _fk
+    net = FakeNet(_fk.CutSet([16]))
     net.trace_enabled = False
     srv = net.add_server("mc1", 11211, RefServer())
     srv.store[b"h1"] = Item(b"v1", 0, 0, srv._next_cas())
+    for t_ in range(64):
+        srv.store[b"g%d" % t_] = Item(b"value-of-thread-%d" % t_, 0, 0, srv._next_cas())
     mlock = threading.Lock()
     held, active, viol = {}, {}, []
 
@@ -573,7 +581,7 @@ def stress_section(res, seconds, seed, max_size):
                 if c < 0.35:
                     pc.set("k%d" % i, b"v%d" % i)
                 elif c < 0.7:
-                    if pc.get("h1") != b"v1":
+                    if pc.get("g%d" % i) != b"value-of-thread-%d" % i:
                         with mlock:
                             viol.append(("stress:wrong-result", "get returned a foreign value"))
                 elif c < 0.8:
